@@ -89,6 +89,7 @@ class Counters:
         self.calls = {k: [] for k in ("evaluate", "validate", "keys", "explain")}
         self.cache = {"get": 0, "set": 0, "exists": 0}
         self.logged = 0
+        self.option_values = 0  # Option evaluations that obtained a value (from the options or from the default)
         self._undo = []
 
     def install(self):
@@ -116,10 +117,19 @@ class Counters:
 
     def _wrap_attr(self, c, a, orig, op):
         me = self
+        is_option_eval = c.__name__ == "Option" and op == "evaluate"
 
         def counted(self_, *args, **kw):
             me.calls[op].append(id(self_))
-            return orig(self_, *args, **kw)
+            if not is_option_eval:
+                return orig(self_, *args, **kw)
+            try:
+                r = orig(self_, *args, **kw)
+            except ValueError:
+                me.option_values += 1  # the value was obtained and type-checked, then rejected by the domain
+                raise
+            me.option_values += 1
+            return r
 
         setattr(c, a, counted)
         self._undo.append(lambda: setattr(c, a, orig))
@@ -139,6 +149,7 @@ class Counters:
             self.calls[k] = []
         self.cache = {"get": 0, "set": 0, "exists": 0}
         self.logged = 0
+        self.option_values = 0
 
     def uninstall(self):
         for u in reversed(self._undo):
@@ -281,6 +292,9 @@ def check_term(label, term, dicts, res, counters):
                     continue
                 if counters.cache["set"] != ns or counters.cache["exists"] != ne or counters.cache["get"] != ng + ns:
                     fail("cache-access-bypassed-the-runtime", o, f"[{opname}] MemoryCache saw {counters.cache}, handlers saw set={ns} get={ng} exists={ne}")
+                ntv = len(seen.get("TypeValidationRequest", []))
+                if ntv != counters.option_values:
+                    fail("option-type-check-not-issued-as-a-request", o, f"[{opname}] {counters.option_values} option values were obtained, {ntv} TypeValidationRequests seen")
                 if counters.logged != len(seen.get("LogRequest", [])):
                     fail("log-emission-bypassed-the-runtime", o, f"[{opname}] {counters.logged} records emitted, {len(seen.get('LogRequest', []))} LogRequests seen")
         res["classes"].update(rec.classes)
@@ -368,7 +382,10 @@ def check_extra(res, counters):
     iface = interface("IMPL")(type("I", (), {"__annotations__": {"m": int}, "n": 7}))
     iface.implementation("x")(type("Impl", (), {"m": 3}))
     w.start()
-    objs = [("namespace", ns, {"NS": {"A": 1}}), ("namespace-member", ns.SUB.C, {}), ("datasetclass", dc, {"B": 3}), ("interface-member", iface.m, {"IMPL": "x"}),
+    from labrea import Map, WithDefaultOptions, WithOptions
+
+    objs = [("WithOptions(datasetclass)", WithOptions(dc, {"B": 4}), {}), ("WithDefaultOptions(datasetclass)", WithDefaultOptions(dc, {"B": 4}), {}),
+            ("Map(datasetclass)", Map(dc, {"B": Option("BS", [1, 2])}).values >> list, {}), ("namespace", ns, {"NS": {"A": 1}}), ("namespace-member", ns.SUB.C, {}), ("datasetclass", dc, {"B": 3}), ("interface-member", iface.m, {"IMPL": "x"}),
             ("interface-default", iface.n, {}), ("dataset-with-LogEffect", dsx, {})]
     for name, obj, o in objs:
         for op in OPS4:
@@ -379,7 +396,7 @@ def check_extra(res, counters):
                 got = observe(w, lambda: getattr(obj, op)(copy.deepcopy(o)))
             res["evaluations"] += 1
             d = None
-            if got.ok != base.ok or (got.ok and repr(got.value) != repr(base.value) and name != "datasetclass"):
+            if got.ok != base.ok or (got.ok and repr(got.value) != repr(base.value) and "datasetclass" not in name):
                 d = f"{got!r} vs {base!r}"
             if d:
                 fails.append({"sig": f"C18|extra|{name}|{op}", "what": f"pass-through handlers changed {op} of {name}", "detail": d, "case": ("extra",)})
